@@ -95,18 +95,22 @@ def _prune_cache(keep=8):
         shutil.rmtree(os.path.join(root, d), ignore_errors=True)
 
 
-def build_impl(variant="plain", harness=("szimpl.c", "ops_more.c"), exe="szimpl", extra_cflags=(), extra_libs=()):
+def build_impl(variant="plain", harness=("szimpl.c", "ops_more.c"), exe="szimpl", extra_cflags=(), extra_libs=(), extra_repo_srcs=()):
     """Build libSZ.a from /repo's working tree with -DSZ_VERIF and the given harness program.
     Returns the path of the executable.  Cached by content hash of the sources + flags."""
     with Lock("impl-" + variant + "-" + exe):
-        return _build_impl(variant, harness, exe, extra_cflags, extra_libs)
+        return _build_impl(variant, harness, exe, extra_cflags, extra_libs, extra_repo_srcs)
 
 
-def _build_impl(variant, harness, exe, extra_cflags, extra_libs):
+def _build_impl(variant, harness, exe, extra_cflags, extra_libs, extra_repo_srcs):
     srcs, hdrs = _src_files()
     hfiles = [os.path.join(VERIF, "harness", f) for f in harness] + [os.path.join(VERIF, "harness", "szimpl.h")]
     flags = VARIANTS[variant] + ["-D" + GUARD] + list(extra_cflags)
-    key = tree_hash(hfiles, " ".join(flags) + exe + " ".join(extra_libs))
+    rfiles = [os.path.join(REPO, f) for f in extra_repo_srcs]
+    rhdrs = []
+    for f in rfiles:
+        rhdrs += glob.glob(os.path.join(os.path.dirname(os.path.dirname(f)), "include", "*.h"))
+    key = tree_hash(hfiles + rfiles + rhdrs, " ".join(flags) + exe + " ".join(extra_libs))
     out = os.path.join(CACHE, "impl", variant + "-" + key)
     binp = os.path.join(out, exe)
     if os.path.exists(binp):
@@ -131,7 +135,8 @@ def _build_impl(variant, harness, exe, extra_cflags, extra_libs):
         raise RuntimeError("implementation build failed:\n" + p.stdout[-2000:] + p.stderr[-4000:])
     os.makedirs(out, exist_ok=True)
     cmd = ["gcc"] + flags + ["-I" + os.path.join(work, "include"), "-I" + os.path.join(VERIF, "harness")] + \
-          [os.path.join(VERIF, "harness", f) for f in harness] + [os.path.join(work, "libSZ.a")] + \
+          [os.path.join(VERIF, "harness", f) for f in harness] + rfiles + \
+          ["-I" + os.path.join(os.path.dirname(os.path.dirname(f)), "include") for f in rfiles] + [os.path.join(work, "libSZ.a")] + \
           list(extra_libs) + ["-lz", "-lzstd", "-lm", "-lpthread", "-o", binp]
     p = sh(cmd, timeout=600)
     if p.returncode != 0:
